@@ -13,10 +13,11 @@ open Emboss.Fmt Driver
 * `TABLE` — evaluates the table obligations of Spec/Fmt.lean on the regenerated registry
   (`tableTyped formatters`, `tableMatchesGrammar formatters grammar`): `ok`, or `bad …`
   naming the first offending entries.
-* `SANITYLEN …` — the same with the length comparison of fixes/C11-sanity-check-length.patch.
 * `SANITY <formatted tokens> <original tokens>` — each a `,`-separated list of
   `<hex symbol>:<hex text>` (`-` for the empty list).  Answer: `ok`, `differs <i>`,
-  `indexerror <i>`.
+  `countdiffers`.
+* `GLUE` / `GLUECHECK` — the terminal pairs some handler prints with nothing in between
+  (`gluedPairs`), and whether all of them are in the audited list (`gluedOK`).
 -/
 
 def hexVal (c : Char) : Option Nat :=
@@ -116,7 +117,7 @@ def handle (line : String) : String :=
     if gluedOK Emboss.Generated.FmtTable.formatters Emboss.Generated.FmtTable.grammar then "ok"
     else "bad " ++ "\t".intercalate
       (((gluedPairs Emboss.Generated.FmtTable.formatters Emboss.Generated.FmtTable.grammar).filter
-        (fun p => !(allowedGlued.contains p || knownBadGlued.contains p))).map (fun p => p.1 ++ " " ++ p.2))
+        (fun p => !allowedGlued.contains p)).map (fun p => p.1 ++ " " ++ p.2))
   | "FMT" :: iw :: items =>
     match iw.toNat?, parseItems items [] none with
     | some iw, some t =>
@@ -131,16 +132,6 @@ def handle (line : String) : String :=
       match sanityCheck f o with
       | .ok => "ok"
       | .differs i => "differs " ++ toString i
-      | .indexError i => "indexerror " ++ toString i
-      | .countDiffers => "countdiffers"
-    | _, _ => "bad-op"
-  | ["SANITYLEN", f, o] =>
-    match parseToks f, parseToks o with
-    | some f, some o =>
-      match sanityCheckLen f o with
-      | .ok => "ok"
-      | .differs i => "differs " ++ toString i
-      | .indexError i => "indexerror " ++ toString i
       | .countDiffers => "countdiffers"
     | _, _ => "bad-op"
   | _ => "bad-op"
